@@ -1220,6 +1220,55 @@ func main() {
 		// a dataset created through the follower is placed on members only
 		create(b, 3, 3)
 		observe(ps, "create")
+	case "paused-replace":
+		// as lagging-replace, but the follower is not restarted: it is frozen (SIGSTOP - a long pause of the process or
+		// its machine) while a node leaves, another joins and the log is compacted, and then continues.  It repeats
+		// no join hand-shake, so the snapshot is all it learns the changes from
+		d := mk(4, "127.0.0.1:"+a.port)
+		okd := d.start()
+		okv := 0
+		if okd {
+			okv = 1
+			ps = append(ps, d)
+		}
+		emit(event{"ev": "joined", "node": 4, "addr": ":" + d.port, "ok": okv})
+		observe(ps, "join")
+		b.cmd.Process.Signal(syscall.SIGSTOP)
+		b.alive = false
+		emit(event{"ev": "paused", "node": 2})
+		ctx, cancel := context.WithTimeout(context.Background(), 15*time.Second)
+		_, err := pb.NewNodesManagerClient(a.conn).RemoveNode(ctx, &pb.Node{Id: 3})
+		cancel()
+		okv, es := 1, ""
+		if err != nil {
+			okv, es = 0, err.Error()
+		}
+		emit(event{"ev": "left", "node": 3, "ok": okv, "err": es})
+		time.Sleep(1500 * time.Millisecond)
+		c.kill()
+		e := mk(5, "127.0.0.1:"+a.port)
+		oke := e.start()
+		okv = 0
+		if oke {
+			okv = 1
+			ps = append(ps, e)
+		}
+		emit(event{"ev": "joined", "node": 5, "addr": ":" + e.port, "ok": okv})
+		observe(ps, "join")
+		for _, p := range []*proc{a, d, e} {
+			if p.checkAlive() {
+				p.cmd.Process.Signal(syscall.SIGUSR1)
+			}
+		}
+		time.Sleep(1500 * time.Millisecond)
+		emit(event{"ev": "snapshotted"})
+		b.cmd.Process.Signal(syscall.SIGCONT)
+		b.alive = true
+		emit(event{"ev": "resumed", "node": 2})
+		observe(ps, "resume")
+		// a dataset created through the follower is placed on members only
+		create(b, 3, 3)
+		observe(ps, "create")
 	case "leave":
 		ctx, cancel := context.WithTimeout(context.Background(), 5*time.Second)
 		_, err := pb.NewNodesManagerClient(a.conn).RemoveNode(ctx, &pb.Node{Id: 3})
